@@ -221,6 +221,8 @@ type c15RunResult struct {
 	panicked   bool
 	panicMsg   string
 	concurrent bool
+	maxQueue   int
+	queueCap   int
 }
 
 // realRun executes the real accumulator once.
@@ -259,12 +261,19 @@ func (in *c15Interp) realRunOnce(ig []int, flush int, skip uint64, mode int, see
 	}
 	var inCb int32
 	ncb := 0
+	var oa *ObjectAccumulator
 	cb := func(parent *ObjectWithMetadata, children []ObjectWithMetadata) error {
 		if atomic.AddInt32(&inCb, 1) != 1 {
 			res.concurrent = true
 		}
 		defer atomic.AddInt32(&inCb, -1)
 		ncb++
+		defer func() {
+			// evidence only: how far the reader got ahead of us (never part of an answer)
+			if l := len(oa.flushQueue); l > res.maxQueue {
+				res.maxQueue = l
+			}
+		}()
 		// delays first (so that the producer can run ahead while we hold the group), then the snapshot
 		switch mode {
 		case 1:
@@ -312,7 +321,8 @@ func (in *c15Interp) realRunOnce(ig []int, flush int, skip uint64, mode int, see
 	for i, k := range ig {
 		kinds[i] = iplddecoders.Kind(k)
 	}
-	oa := NewObjectAccumulator(rd, iplddecoders.Kind(flush), cb, kinds...)
+	oa = NewObjectAccumulator(rd, iplddecoders.Kind(flush), cb, kinds...)
+	res.queueCap = cap(oa.flushQueue)
 	if skip > 0 {
 		oa.SetSkip(skip)
 	}
@@ -398,6 +408,12 @@ func (in *c15Interp) exec(line string) (string, bool) {
 			in.s.Violation("Run fails on a well-formed CAR: "+res.err.Error(),
 				fmt.Sprintf("C15:run-error:case=%s", in.caseName), in.s.Replay(in.caseOps))
 			return "err", false
+		}
+		if res.maxQueue == res.queueCap {
+			in.s.Count("runs-with-full-queue")
+		}
+		if res.maxQueue == 0 {
+			in.s.Count("runs-with-consumer-never-behind")
 		}
 		in.oracle(line, ig, flush, skip, mode, procs, &res)
 		in.s.Add("callbacks", len(res.calls))
@@ -958,14 +974,17 @@ func (g *c15Gen) generate(thorough bool) {
 		g.run(nil, 2, 0, 0, 16)
 	}
 	// 8. realistic epochs and random layouts
-	nrand := 6
+	nrand := 8
 	if thorough {
-		nrand = 60
+		nrand = 150
 	}
 	for i := 0; i < nrand; i++ {
 		c := newC15Car(rng)
 		var blocks []cid.Cid
 		nb := 1 + rng.Intn(40)
+		if thorough && i%10 == 0 {
+			nb = 200 + rng.Intn(400)
+		}
 		if i%3 == 0 {
 			for b := 0; b < nb; b++ {
 				blocks = append(blocks, g.ledgerBlock(c, 1000+b, rng.Intn(12), i%6 == 0 && b == 1))
@@ -974,6 +993,9 @@ func (g *c15Gen) generate(thorough bool) {
 			c.epoch(i, []cid.Cid{s})
 		} else {
 			n := 1 + rng.Intn(300)
+			if thorough && i%10 == 1 {
+				n = 2000 + rng.Intn(4000)
+			}
 			bias := rng.Intn(7)
 			for j := 0; j < n; j++ {
 				k := rng.Intn(8)
